@@ -316,6 +316,32 @@ def huge(seed, count, tag='HUGE'):
             yield case(tag + '-wide', cols, big, 'plain')
 
 
+def real(repo=None, max_cells=60000):
+    """Every example file shipped with the repository, parsed by the independent readers."""
+    import glob
+    import os
+    from . import refio
+    repo = repo or os.environ.get('VERIF_REPO', '/repo')
+    for path in sorted(glob.glob(os.path.join(repo, 'examples', '*'))):
+        ext = os.path.splitext(path)[1].lower()
+        reader = {'.cxt': refio.read_cxt, '.csv': refio.read_csv, '.txt': refio.read_table}.get(ext)
+        if reader is None:
+            continue
+        try:
+            with open(path, encoding='utf-8', newline='' if ext == '.csv' else None) as f:
+                objects, properties, rows = reader(f.read())
+        except Exception:
+            continue
+        if not objects or not properties or len(objects) * len(properties) > max_cells:
+            continue
+        if len(set(objects)) != len(objects) or len(set(properties)) != len(properties) \
+                or set(objects) & set(properties):
+            continue
+        masks = [sum(1 << j for j, b in enumerate(r) if b) for r in rows]
+        yield {'fam': 'REAL:' + os.path.basename(path), 'objects': list(objects),
+               'properties': list(properties), 'rows': masks}
+
+
 def near(cases_, seed, per=3, tag='NEAR'):
     """One-cell flips and row/column swaps of given cases."""
     rng = random.Random(f'{seed}/{tag}')
@@ -346,6 +372,7 @@ def near(cases_, seed, per=3, tag='NEAR'):
 
 def ctx_stream(tier, seed, *, scale=1.0, with_wide=True, max_rnd=None, with_huge=False):
     """Deterministic list of table cases for (tier, seed)."""
+    yield from real()
     if tier == 'quick':
         yield from exh(3, 3)
         yield from rnd(seed, int(3200 * scale), *(max_rnd or (9, 9)))
